@@ -10,7 +10,7 @@ from sa.flow import defs_reaching, reaching_defs
 from sa.model import contains, enclosing, is_user_func_call, node_classes, superstep_funcs
 from sa.variants import Variant, replace_once, sub_first, sub_once
 
-from .common import call_names, runner_no_raise
+from .common import call_names, runner_no_raise, vars_from_call
 
 ID = "C09"
 EXPLANATION = (
@@ -330,7 +330,8 @@ def run(ctx) -> None:
         tgt = [x for x, l, _ in t.succ if l == "T"]
         ok = all(t in cdom.get(b, set()) for b in backend) and bool(tgt) and not any(reaches(tgt[0], b) for b in backend)
     rep.add("C09.R6", f"{cc.qname}:opt-in", ok, cc.loc(), "a node that did not opt in never reaches the backend" if ok else "a node that did not opt in can be looked up in the cache")
-    emptykey = [n for n in ccfg.nodes if n.kind == "test" and src(n.ast) == "not cache_key"]
+    keyvars = set(vars_from_call(db, cc, {"compute_cache_key"}))
+    emptykey = [n for n in ccfg.nodes if n.kind == "test" and isinstance(n.ast, ast.UnaryOp) and isinstance(n.ast.op, ast.Not) and isinstance(n.ast.operand, ast.Name) and n.ast.operand.id in keyvars]
     ok = bool(emptykey) and all(emptykey[0] in cdom.get(b, set()) for b in backend)
     rep.add("C09.R6", f"{cc.qname}:unpicklable-inputs", ok, cc.loc(), "an empty key (unpicklable inputs) never reaches the backend" if ok else "an empty key can be used for a look-up: all nodes with unpicklable inputs would share one entry")
     for ss in superstep_funcs(db):
@@ -340,8 +341,9 @@ def run(ctx) -> None:
                 continue
             cfg2 = ctx.cfg(f, runner_no_raise(db))
             dom2 = dominators(cfg2.entry)
-            hit_val = specialize({"cached_outputs is None": False})
-            miss_val = specialize({"cached_outputs is None": True})
+            cvars = vars_from_call(db, f, {"check_cache"}, index=1) or ["cached_outputs"]
+            hit_val = specialize({f"{v} is None": False for v in cvars})
+            miss_val = specialize({f"{v} is None": True for v in cvars})
             execs = [n for n in cfg2.nodes if any(isinstance(c.func, ast.Name) and c.func.id == "execute_node" for c in cfg2.calls_at(n))]
             stores = [n for n in cfg2.nodes if any("store_in_cache" in call_names(db, c, f) for c in cfg2.calls_at(n))]
             restores = [n for n in cfg2.nodes if any("restore_routing_decision" in call_names(db, c, f) for c in cfg2.calls_at(n))]
@@ -361,7 +363,8 @@ def run(ctx) -> None:
             # store only with a key and a backend
             for s in stores:
                 g = enclosing([c for c in cfg2.calls_at(s) if "store_in_cache" in call_names(db, c, f)][0], (ast.If,))
-                if g is None or "cache_key" not in src(g.test) or "cache is not None" not in src(g.test):
+                kvars = vars_from_call(db, f, {"check_cache"}, index=0) or ["cache_key"]
+                if g is None or not any(isinstance(x, ast.Name) and x.id in kvars for x in ast.walk(g.test)) or "cache is not None" not in src(g.test):
                     ok = False
             rep.add("C09.R6", f"{f.qname}:store-after-success", ok, f"{f.module.rel}:{stores[0].lineno}", "store happens only after the executor returned normally, with a backend and a non-empty key" if ok else "an entry can be stored without a successful execution, or without key/backend")
             # R7
